@@ -176,6 +176,7 @@ func (r *replicator) Load(ctx context.Context, entries []ipfslog.Entry) {
 		}
 
 		// signal that we add an entry to the queue
+		verifhook.Emitting(r.eventBus)
 		if err := r.emitters.evtLoadAdded.Emit(NewEventLoadAdded(entry.GetHash(), entry)); err != nil {
 			r.logger.Warn("unable to emit event load added", zap.Error(err))
 		}
@@ -264,6 +265,7 @@ func (r *replicator) processHash(ctx context.Context, item processItem) ([]cid.C
 				return
 			}
 
+			verifhook.Emitting(r.eventBus)
 			if err := r.emitters.evtLoadProgress.Emit(NewEventLoadProgress(entry)); err != nil {
 				r.logger.Warn("unable to emit event load progress", zap.Error(err))
 			}
@@ -424,6 +426,7 @@ func (r *replicator) idle() {
 	r.muBuffer.Lock()
 
 	if len(r.buffer) > 0 {
+		verifhook.Emitting(r.eventBus)
 		if err := r.emitters.evtLoadEnd.Emit(NewEventLoadEnd(r.buffer)); err != nil {
 			r.logger.Warn("unable to emit event load end", zap.Error(err))
 		}
